@@ -291,8 +291,9 @@ def r2(ck, F, rid="C02.R2"):
     if ok:
         # fast edge must be the `== 0` true edge of the SCOPED_COUNT load
         txt, val = fast[0]
-        zero_edge = (" Eq 0)" in txt and val != 0) or ((" Ne 0)" in txt or " Gt 0)" in txt) and val == 0) or (txt.startswith("(0 Lt ") and val == 0) or \
-            (txt.startswith("(0 Eq ") and val != 0) or (txt.startswith("(0 Ne ") and val == 0)
+        from rulekit.query import relation_held
+        r = relation_held(txt, val)     # count == 0 in any spelling: `== 0` taken, `!= 0` / `> 0` / `0 <` not taken, `< 1`, `1 >` ...
+        zero_edge = bool(r) and ((r[1] == "==" and "0" in (r[0], r[2])) or (r[1] == "<=" and r[2] == "0") or (r[1] == "<" and r[2] == "1"))
         ok = "load(" in txt and "SCOPED_COUNT" in txt and zero_edge
     if ok:
         ck.ok(rid, "fast path iff SCOPED_COUNT == 0", fn=gd.path, detail={str(k): v for k, v in rows.items()})
